@@ -31,6 +31,17 @@ class NoneV:
 NONE = NoneV()
 
 
+class OptV:
+    """`None` or a scalar: the result of a callee whose contract leaves both possible. `x is None` is `isnone`; once a branch has
+    tested it the executor rebinds the name to None / the scalar (flow typing). Using it as a number before that is a TypeError
+    in Python and Undecided here."""
+    def __init__(self, isnone, val):
+        self.isnone, self.val = isnone, val
+
+    def __repr__(self):
+        return f"OptV({self.isnone}, {self.val})"
+
+
 class StrV:
     """Concrete Python string."""
 
@@ -643,8 +654,8 @@ class Exec:
             raise Undecided("list * symbolic int")
         if isinstance(a, LRef) and isinstance(b, LRef) and isinstance(op, ast.Add):
             return self.alloc_list(st, st.heap[a.sid].items + st.heap[b.sid].items)
-        if isinstance(a, (NoneV, StrV)) or isinstance(b, (NoneV, StrV)):
-            raise Undecided("arithmetic on None/str")
+        if isinstance(a, (NoneV, StrV, OptV)) or isinstance(b, (NoneV, StrV, OptV)):
+            raise Undecided("arithmetic on None/str/optional")
         return self.scalar_binop(op, a, b, st, node)
 
     def compare(self, op, a, b, st, node):
@@ -655,7 +666,7 @@ class Exec:
             return MaskedV(self.map2(st, a.arr, b, lambda x, y: self.scalar_cmp(op, x, y), node, elem="bool"), a.mask)
         if isinstance(a, ARef) or isinstance(b, ARef):
             return self.map2(st, a, b, lambda x, y: self.scalar_cmp(op, x, y), node, elem="bool")
-        if isinstance(a, (NoneV, StrV, Tup)) or isinstance(b, (NoneV, StrV, Tup)):
+        if isinstance(a, (NoneV, StrV, Tup, OptV, DictV)) or isinstance(b, (NoneV, StrV, Tup, OptV, DictV)):
             if isinstance(op, (ast.Eq, ast.NotEq)):
                 r = self.struct_eq(a, b)
                 return r if isinstance(op, ast.Eq) else z3.Not(r)
@@ -688,6 +699,12 @@ class Exec:
         raise Undecided(f"comparison {t.__name__}")
 
     def identical(self, a, b):
+        if isinstance(a, OptV) and isinstance(b, NoneV):
+            return a.isnone
+        if isinstance(b, OptV) and isinstance(a, NoneV):
+            return b.isnone
+        if isinstance(a, OptV) or isinstance(b, OptV):
+            raise Undecided("'is' between optional values")
         if isinstance(a, NoneV) or isinstance(b, NoneV):
             return z3.BoolVal(isinstance(a, NoneV) and isinstance(b, NoneV))
         if isinstance(a, ARef) and isinstance(b, ARef):
@@ -704,8 +721,22 @@ class Exec:
         raise Undecided("'is' between these values")
 
     def struct_eq(self, a, b):
+        if isinstance(b, OptV) and not isinstance(a, OptV):
+            a, b = b, a
+        if isinstance(a, OptV):
+            if isinstance(b, NoneV):
+                return a.isnone
+            if isinstance(b, OptV):
+                return z3.Or(z3.And(a.isnone, b.isnone), z3.And(z3.Not(a.isnone), z3.Not(b.isnone), self.struct_eq(a.val, b.val)))
+            return z3.And(z3.Not(a.isnone), self.struct_eq(a.val, b))
         if isinstance(a, NoneV) or isinstance(b, NoneV):
             return z3.BoolVal(isinstance(a, NoneV) and isinstance(b, NoneV))
+        if isinstance(a, DictV) and isinstance(b, DictV):
+            if set(a.items) != set(b.items):
+                return z3.BoolVal(False)
+            return z3.And(*[self.struct_eq(a.items[k], b.items[k]) for k in a.items]) if a.items else z3.BoolVal(True)
+        if isinstance(a, DictV) or isinstance(b, DictV):
+            return z3.BoolVal(False)
         if isinstance(a, StrV) and isinstance(b, StrV):
             return z3.BoolVal(a.s == b.s)
         if isinstance(a, StrV) or isinstance(b, StrV):
@@ -1347,6 +1378,12 @@ class Exec:
             return self.run(n.body, st)
         if z3.is_false(c):
             return self.run(n.orelse, st)
+        opt = self._refine_optionals(st, c)
+        if opt is not None:
+            a, b = opt
+            self.cover.append((f"branch-true@{n.lineno}", list(a.pc)))
+            self.cover.append((f"branch-false@{n.lineno}", list(b.pc)))
+            return self.run(n.body, a) + self.run(n.orelse, b)
         if self._mergeable(n.body) and self._mergeable(n.orelse):
             a, b = st.fork(), st.fork()
             a.pc.append(c)
@@ -1368,6 +1405,27 @@ class Exec:
         self.cover.append((f"branch-true@{n.lineno}", list(a.pc)))
         self.cover.append((f"branch-false@{n.lineno}", list(b.pc)))
         return self.run(n.body, a) + self.run(n.orelse, b)
+
+    def _refine_optionals(self, st, c):
+        """if the branch condition is the None-test of optional values, fork with those names rebound to None / the scalar"""
+        pos, neg = [], []
+        for nm, v in st.env.items():
+            if isinstance(v, OptV):
+                t = z3.simplify(v.isnone)
+                if t.eq(c):
+                    pos.append(nm)
+                elif z3.simplify(z3.Not(t)).eq(c):
+                    neg.append(nm)
+        if not pos and not neg:
+            return None
+        a, b = st.fork(), st.fork()
+        a.pc.append(c)
+        b.pc.append(z3.Not(c))
+        for nm in pos:
+            a.env[nm], b.env[nm] = NONE, st.env[nm].val
+        for nm in neg:
+            a.env[nm], b.env[nm] = st.env[nm].val, NONE
+        return a, b
 
     def st_Return(self, n, st):
         v = NONE if n.value is None else self.ev(n.value, st)
